@@ -190,3 +190,201 @@ theorem resolves_after_lost (env : Env) (pre post : List CEv) (e : Bool) :
 example : (crun ⟨fun _ => true, fun _ => some 20, fun _ => true, fun _ _ => 2⟩
     [.data [50, 48, 32, 120, 13, 10, 104, 105], .lost false]).fut = .error "charset" := by decide
 end Cl
+
+namespace Cl
+
+/-- while the call is still pending, a parsed status is in range -/
+def StatusInv (s : CSt) : Prop := ∀ st, s.status = some st → s.fut = .pending → 10 ≤ st ∧ st < 70
+
+theorem setError_status (s : CSt) (k : String) : (setError s k).status = s.status := by
+  unfold setError; split <;> rfl
+
+theorem capCheck_status (s : CSt) : (capCheck s).status = s.status := by
+  unfold capCheck; split
+  · exact setError_status s _
+  · rfl
+
+theorem setError_header (s : CSt) (k : String) : (setError s k).headerReceived = s.headerReceived := by
+  unfold setError; split <;> rfl
+
+theorem capCheck_header (s : CSt) : (capCheck s).headerReceived = s.headerReceived := by
+  unfold capCheck; split
+  · exact setError_header s _
+  · rfl
+
+theorem setError_pending (s : CSt) (k : String) : (setError s k).fut ≠ .pending := by
+  unfold setError; split
+  · simp
+  · assumption
+
+theorem capCheck_pending (s : CSt) (h : (capCheck s).fut = .pending) : s.fut = .pending := by
+  unfold capCheck at h
+  split at h
+  · exact absurd h (setError_pending s _)
+  · exact h
+
+theorem parseHeader_inv (env : Env) (s : CSt) (l : Bytes) (hs : s.status = none) : StatusInv (parseHeader env s l) := by
+  unfold parseHeader
+  simp only
+  split
+  · intro st h1 _; rw [setError_status, hs] at h1; simp at h1
+  · rename_i st hst
+    split
+    · rename_i hr
+      intro st' h1 _
+      simp only [Option.some.injEq] at h1; subst h1; exact hr
+    · intro st' _ h2
+      exact absurd h2 (setError_pending _ _)
+
+theorem cstep_inv (env : Env) (s : CSt) (ev : CEv) (h : StatusInv s) (hh : s.headerReceived = false → s.status = none) :
+    StatusInv (cstep env s ev) ∧ ((cstep env s ev).headerReceived = false → (cstep env s ev).status = none) := by
+  cases ev with
+  | lost e =>
+    simp only [cstep, onLost]
+    split
+    · exact ⟨h, hh⟩
+    · rename_i hp
+      have hp' : s.fut = .pending := by simpa using hp
+      split
+      · exact ⟨fun st h1 h2 => by simp at h2, hh⟩
+      · split
+        · exact ⟨fun st h1 h2 => by simp at h2, hh⟩
+        · split
+          · exact ⟨fun st h1 h2 => by simp at h2, hh⟩
+          · split
+            · split
+              · split <;> exact ⟨fun st h1 h2 => by simp at h2, hh⟩
+              · exact ⟨fun st h1 h2 => by simp at h2, hh⟩
+            · exact ⟨fun st h1 h2 => by simp at h2, hh⟩
+  | data c =>
+    simp only [cstep, onData]
+    split
+    · exact ⟨h, hh⟩
+    · split
+      · rename_i hnr
+        have hsn : s.status = none := hh (by simpa using hnr)
+        split
+        · split
+          · refine ⟨fun st h1 h2 => absurd h2 (setError_pending _ _), fun hf => by simp at hf⟩
+          · refine ⟨fun st h1 h2 => ?_, fun _ => ?_⟩
+            · rw [capCheck_status] at h1; simp [hsn] at h1
+            · rw [capCheck_status]; exact hsn
+        · split
+          · refine ⟨fun st h1 h2 => absurd h2 (setError_pending _ _), fun hf => by simp at hf⟩
+          · rename_i i _ _
+            split
+            · exact ⟨fun st h1 h2 => by simp [hsn] at h1, fun _ => hsn⟩
+            · have hpi := parseHeader_inv env { s with buf := s.buf ++ c } ((s.buf ++ c).take i) hsn
+              split
+              · exact ⟨fun st h1 h2 => hpi st h1 h2, fun hf => by simp at hf⟩
+              · split
+                · refine ⟨fun st h1 h2 => ?_, fun hf => ?_⟩
+                  · rw [capCheck_status] at h1
+                    have hx := capCheck_pending _ h2
+                    exact hpi st h1 hx
+                  · rw [capCheck_header] at hf; simp at hf
+                · refine ⟨fun st h1 h2 => ?_, fun hf => ?_⟩
+                  · rw [capCheck_status] at h1
+                    have hx := capCheck_pending _ h2
+                    exact hpi st h1 hx
+                  · rw [capCheck_header] at hf; simp at hf
+      · rename_i hr
+        refine ⟨fun st h1 h2 => ?_, fun hf => ?_⟩
+        · rw [capCheck_status] at h1
+          have hx := capCheck_pending _ h2
+          exact h st h1 hx
+        · exfalso
+          rw [capCheck_header] at hf
+          simp only at hf
+          simp [hf] at hr
+end Cl
+
+namespace Cl
+
+theorem run_inv (env : Env) (evs : List CEv) :
+    StatusInv (crun env evs) ∧ ((crun env evs).headerReceived = false → (crun env evs).status = none) := by
+  unfold crun
+  have : ∀ s : CSt, (StatusInv s ∧ (s.headerReceived = false → s.status = none)) →
+      StatusInv (evs.foldl (cstep env) s) ∧ ((evs.foldl (cstep env) s).headerReceived = false → (evs.foldl (cstep env) s).status = none) := by
+    induction evs with
+    | nil => intro s h; exact h
+    | cons e es ih => intro s h; exact ih _ (cstep_inv env s e h.1 h.2)
+  exact this {} ⟨fun st h => by simp at h, fun _ => rfl⟩
+
+/-- a response is produced only by `connection_lost`, from the status parsed earlier -/
+theorem response_origin (env : Env) (s : CSt) (ev : CEv) (hp : s.fut = .pending) (st : Int) (m : Bytes) (b : Option Bytes) (d : Bool)
+    (h : (cstep env s ev).fut = .response st m b d) :
+    s.status = some st ∧ (b ≠ none ↔ (20 ≤ st ∧ st < 30)) := by
+  cases ev with
+  | data c =>
+    exfalso
+    -- `data_received` only ever sets errors
+    have hne : ∀ (t : CSt) (k : String), t.fut = .pending → (setError t k).fut = .error k := by
+      intro t k ht; unfold setError; rw [if_pos ht]
+    have hcap : ∀ t : CSt, t.fut = .pending → ∀ st m b d, (capCheck t).fut ≠ .response st m b d := by
+      intro t ht st m b d
+      unfold capCheck; split
+      · simp only; rw [hne t _ ht]; simp
+      · rw [ht]; simp
+    simp only [cstep, onData] at h
+    split at h
+    · rw [hp] at h; simp at h
+    · split at h
+      · split at h
+        · split at h
+          · simp only at h; rw [hne _ _ (by simpa using hp)] at h; simp at h
+          · exact hcap _ (by simpa using hp) _ _ _ _ h
+        · split at h
+          · simp only at h; rw [hne _ _ (by simpa using hp)] at h; simp at h
+          · rename_i i _ _
+            split at h
+            · simp only at h; rw [hp] at h; simp at h
+            · -- after the header was parsed the future is pending or an error, never a response
+              have hph : ∀ l, (parseHeader env { s with buf := s.buf ++ c } l).fut = .pending ∨
+                  ∃ k, (parseHeader env { s with buf := s.buf ++ c } l).fut = .error k := by
+                intro l
+                unfold parseHeader; simp only
+                split
+                · right; exact ⟨_, hne _ _ (by simpa using hp)⟩
+                · split
+                  · left; simpa using hp
+                  · right; exact ⟨_, hne _ _ (by simpa using hp)⟩
+              rcases hph ((s.buf ++ c).take i) with hq | ⟨k, hq⟩
+              · split at h
+                · simp only at h; rw [hq] at h; simp at h
+                · split at h
+                  · exact hcap _ (by simpa using hq) _ _ _ _ h
+                  · exact hcap _ (by simpa using hq) _ _ _ _ h
+              · have hk : ∀ t : CSt, t.fut = .error k → (capCheck t).fut = .error k := by
+                  intro t ht; unfold capCheck; split
+                  · simp only; unfold setError; rw [ht]; simp [ht]
+                  · exact ht
+                split at h
+                · simp only at h; rw [hq] at h; simp at h
+                · split at h
+                  · rw [hk _ (by simpa using hq)] at h; simp at h
+                  · rw [hk _ (by simpa using hq)] at h; simp at h
+      · exact hcap _ (by simpa using hp) _ _ _ _ h
+  | lost e =>
+    simp only [cstep, onLost] at h
+    split at h
+    · rename_i hn; exact absurd hp hn
+    · split at h
+      · simp at h
+      · split at h
+        · simp at h
+        · split at h
+          · simp at h
+          · rename_i st' hst
+            split at h
+            · rename_i h2x
+              split at h
+              · split at h
+                · simp at h; obtain ⟨rfl, _, rfl, _⟩ := h; exact ⟨hst, by simp [h2x]⟩
+                · simp at h
+                · simp at h
+              · simp at h; obtain ⟨rfl, _, rfl, _⟩ := h; exact ⟨hst, by simp [h2x]⟩
+            · rename_i h2x
+              simp at h; obtain ⟨rfl, _, rfl, _⟩ := h
+              exact ⟨hst, by simpa using h2x⟩
+end Cl
